@@ -25,7 +25,15 @@ type ctl struct {
 	tcp    bool
 }
 
+// Thorough makes half of the scenarios twice as large (set by the worker from VERIF_TIER).
+var Thorough bool
+
+// n draws a size: 0..k-1, from a range twice as wide in scaled-up scenarios.
+func (b *builder) n(k int) int { return b.r.Intn(k * b.scale) }
+
 type builder struct {
+	zone   *zoneGen
+	scale  int
 	r      *rand.Rand
 	sc     *engine.Scenario
 	prefix string
@@ -99,6 +107,7 @@ func (b *builder) base(o baseOpt) {
 			engine.Endpoint{Name: "loopback-listener/udp", IP: "127.0.0.1", Port: 60000, Proto: "udp"})
 	}
 
+	debug := r.Intn(10) == 0 // the debug flag dumps every message: more code on the send and receive paths
 	nc := 1
 	if o.maxClients > 1 {
 		nc += r.Intn(o.maxClients)
@@ -127,6 +136,7 @@ func (b *builder) base(o baseOpt) {
 		}
 		c.Broadcast = pick(r, "", b.prefix+".255:60000", b.prefix+".255:60000", "255.255.255.255:60000", b.prefix+".255:60005")
 		c.Listen = fmt.Sprintf("%s:%d", pick(r, "0.0.0.0", sc.HostIP), 60010+i)
+		c.Debug = debug
 		if r.Intn(8) == 0 {
 			c.NilDevs = true
 		}
@@ -134,7 +144,7 @@ func (b *builder) base(o baseOpt) {
 			cfg := false
 			switch o.directed {
 			case 0:
-				cfg = r.Intn(2) == 0
+				cfg = r.Intn(3) > 0
 			case 2:
 				cfg = true
 			}
@@ -142,7 +152,7 @@ func (b *builder) base(o baseOpt) {
 				continue
 			}
 			d := engine.DeviceCfg{Name: fmt.Sprintf("ctl %d", j), ID: k.serial, Addr: fmt.Sprintf("%s:%d", k.ip, k.port), Doors: []string{"D1", "D2", "D3", "D4"}}
-			d.Protocol = pick(r, "udp", "tcp", "udp", "tcp", "", "any", "junk")
+			d.Protocol = pick(r, "udp", "tcp", "udp", "tcp", "tcp", "", "any", "junk")
 			if o.directed == 0 || o.badDevAddrs {
 				switch r.Intn(8) {
 				case 0:
@@ -260,6 +270,9 @@ func (b *builder) otherSerial(s uint32) uint32 {
 }
 
 var classes = []string{"valid", "wronglen", "wrongserial", "serial0", "wrongfn", "wrongproto", "proto19", "malformed", "garbage"}
+
+// classes of C03: the nine of the statement plus replies whose malformed field is an impossible value rather than an undecodable one
+var classes03 = append(append([]string{}, classes...), "valid-ood")
 
 // datagram builds one datagram of a class for the call (op, a) addressed to serial S.
 func (b *builder) datagram(class string, op model.Op, a *model.Args, S uint32) []byte {
@@ -407,7 +420,10 @@ func (b *builder) noise(st *engine.Step, T time.Duration) {
 func Generate(profile string, seed int64) *engine.Scenario {
 	r := rand.New(rand.NewSource(seed*2654435761 + int64(len(profile))*97 + int64(profile[len(profile)-1])))
 	sc := &engine.Scenario{Seed: seed, Profile: profile}
-	b := &builder{r: r, sc: sc, prof: profile}
+	b := &builder{r: r, sc: sc, prof: profile, scale: 1}
+	if Thorough && r.Intn(2) == 0 {
+		b.scale = 2
+	}
 	switch profile {
 	case "C01":
 		genC01(b)
@@ -444,10 +460,10 @@ func Generate(profile string, seed int64) *engine.Scenario {
 func genC01(b *builder) {
 	r := b.r
 	b.base(baseOpt{minCtl: 1, maxCtl: 4, maxClients: 3})
-	nt := 1 + r.Intn(4)
+	nt := 1 + b.n(4)
 	for t := 0; t < nt; t++ {
 		tk := engine.Task{Start: time.Duration(r.Intn(3)) * 10 * time.Millisecond}
-		ns := 1 + r.Intn(5)
+		ns := 1 + b.n(5)
 		for s := 0; s < ns; s++ {
 			client := r.Intn(len(b.sc.Clients))
 			T := b.sc.Clients[client].Timeout
@@ -468,7 +484,7 @@ func genC02(b *builder) {
 	r := b.r
 	b.base(baseOpt{minCtl: 1, maxCtl: 3, maxClients: 2})
 	tk := engine.Task{}
-	ns := 1 + r.Intn(6)
+	ns := 1 + b.n(6)
 	for s := 0; s < ns; s++ {
 		client := r.Intn(len(b.sc.Clients))
 		T := b.sc.Clients[client].Timeout
@@ -499,7 +515,7 @@ func genC03(b *builder) {
 	}
 	for t := 0; t < nt; t++ {
 		tk := engine.Task{}
-		ns := 1 + r.Intn(3)
+		ns := 1 + b.n(3)
 		for s := 0; s < ns; s++ {
 			client := r.Intn(len(b.sc.Clients))
 			T := b.sc.Clients[client].Timeout
@@ -517,7 +533,7 @@ func genC03(b *builder) {
 			}
 			var at time.Duration
 			for i := 0; i < n; i++ {
-				cl := pick(r, classes...)
+				cl := pick(r, classes03...)
 				if r.Intn(3) == 0 {
 					cl = "valid"
 				}
@@ -547,7 +563,7 @@ func genC06(b *builder) {
 	r := b.r
 	b.base(baseOpt{minCtl: 1, maxCtl: 4, maxClients: 3, extraEndpoints: true, badDevAddrs: true})
 	tk := engine.Task{}
-	ns := 1 + r.Intn(6)
+	ns := 1 + b.n(6)
 	for s := 0; s < ns; s++ {
 		client := r.Intn(len(b.sc.Clients))
 		T := b.sc.Clients[client].Timeout
@@ -659,7 +675,7 @@ func genC07(b *builder) {
 	r := b.r
 	b.base(baseOpt{minCtl: 1, maxCtl: 3, maxClients: 2})
 	tk := engine.Task{}
-	ns := 1 + r.Intn(6)
+	ns := 1 + b.n(6)
 	validated := []model.Op{model.PutCard, model.PutCard, model.PutCard, model.SetListener, model.SetAddress, model.SetDoorPasscodes, model.SetTimeProfile}
 	for s := 0; s < ns; s++ {
 		client := r.Intn(len(b.sc.Clients))
@@ -715,11 +731,11 @@ func genC09(b *builder) {
 	}
 	nt := 1
 	if queued {
-		nt = 2 + r.Intn(4)
+		nt = 2 + b.n(4)
 	}
 	for t := 0; t < nt; t++ {
 		tk := engine.Task{Start: time.Duration(r.Intn(3)) * time.Millisecond}
-		ns := 1 + r.Intn(6)
+		ns := 1 + b.n(6)
 		if queued {
 			ns = 1 + r.Intn(3)
 		}
@@ -805,9 +821,28 @@ func genC09(b *builder) {
 func genC11(b *builder) {
 	r := b.r
 	sc := b.sc
-	b.base(baseOpt{minCtl: 0, maxCtl: 6, maxClients: 2})
-	tk := engine.Task{}
-	ns := 1 + r.Intn(3)
+	queued := r.Intn(5) == 0
+	if queued {
+		// discovery has to wait its turn for a shared fixed bind port held by another call
+		b.base(baseOpt{minCtl: 1, maxCtl: 6, maxClients: 2, fixedBind: 2})
+		other := engine.Task{}
+		for i := 1 + r.Intn(2); i > 0; i-- {
+			client := r.Intn(len(sc.Clients))
+			op := b.anyCallOp()
+			serial, known := b.target()
+			a := model.GenArgs(r, op, serial)
+			st := b.callStep(client, op, a, known, b.early(sc.Clients[client].Timeout), model.ReplyOpts{})
+			if r.Intn(2) == 0 {
+				st.Plan.Emits = nil // silent controller: the port is held for a whole timeout
+			}
+			other.Steps = append(other.Steps, st)
+		}
+		sc.Tasks = append(sc.Tasks, other)
+	} else {
+		b.base(baseOpt{minCtl: 0, maxCtl: 6, maxClients: 2})
+	}
+	tk := engine.Task{Start: time.Duration(r.Intn(3)) * time.Millisecond}
+	ns := 1 + b.n(3)
 	for s := 0; s < ns; s++ {
 		client := r.Intn(len(sc.Clients))
 		T := sc.Clients[client].Timeout
@@ -865,6 +900,11 @@ func (b *builder) eventDatagram() ([]byte, string) {
 	case 2:
 		cl = pick(r, "wronglen", "garbage")
 	}
+	if b.zone != nil && (cl == "valid" || cl == "v19") {
+		d := model.GenReply(r, model.GetStatus, &a, serial, model.ReplyOpts{V19: cl == "v19"})
+		b.zone.fix(model.GetStatus, d)
+		return d, cl
+	}
 	switch cl {
 	case "v19":
 		return model.GenReply(r, model.GetStatus, &a, serial, model.ReplyOpts{V19: true, Junk: r.Intn(4) == 0}), cl
@@ -881,9 +921,9 @@ func (b *builder) eventDatagram() ([]byte, string) {
 func (b *builder) listenStep(client int) engine.Step {
 	r := b.r
 	st := engine.Step{Kind: "listen", Client: client}
-	n := r.Intn(12)
+	n := b.n(12)
 	if r.Intn(5) == 0 {
-		n = r.Intn(40)
+		n = b.n(40)
 	}
 	senders := []string{b.prefix + ".100:60000", b.prefix + ".101:60000", b.prefix + ".77:54321"}
 	span := time.Duration(1+r.Intn(500)) * time.Millisecond
@@ -921,11 +961,26 @@ func genC10(b *builder) {
 			sc.Foreign = append(sc.Foreign, vnet.ForeignPort{Proto: "udp", Port: ap.Port()})
 		}
 	}
+	if r.Intn(4) == 0 {
+		// events keep their civil date and time in every process zone
+		z := &zoneGen{r: r}
+		for z.loc == nil {
+			if r.Intn(2) == 0 && len(holes()) > 0 {
+				z.name = pick(r, holes()...)
+			} else {
+				z.name = pick(r, zones.Names...)
+			}
+			z.loc = zones.Load(z.name)
+		}
+		z.days = zones.MissingMidnights(z.name)
+		sc.TZ = z.name
+		b.zone = z
+	}
 	if r.Intn(8) == 0 {
 		// a transient receive error in the middle of the stream
 		sc.Faults = append(sc.Faults, vnet.Fault{Kind: "udpread", Nth: r.Intn(6), Errno: pick(r, "ENOBUFS", "ECONNREFUSED", "EPERM")})
 	}
-	cycles := 1 + r.Intn(3)
+	cycles := 1 + b.n(3)
 	tk := engine.Task{}
 	for i := 0; i < cycles; i++ {
 		tk.Steps = append(tk.Steps, b.listenStep(0))
@@ -951,7 +1006,7 @@ func genC17(b *builder) {
 			tk.Steps = append(tk.Steps, engine.Step{Kind: "mutate-config", Client: 1})
 		}
 	}
-	ns := 1 + r.Intn(6)
+	ns := 1 + b.n(6)
 	for s := 0; s < ns; s++ {
 		client := r.Intn(len(sc.Clients))
 		T := sc.Clients[client].Timeout
@@ -993,10 +1048,15 @@ func genC04(b *builder) {
 	if r.Intn(6) == 0 { // a client built from zero values only
 		sc.Clients = append(sc.Clients, engine.ClientCfg{Timeout: pick(r, timeouts...), NilDevs: true})
 	}
-	nt := 1 + r.Intn(2)
+	if r.Intn(12) == 0 { // the debug flag dumps every message: more code on the receive paths
+		for i := range sc.Clients {
+			sc.Clients[i].Debug = true
+		}
+	}
+	nt := 1 + b.n(2)
 	for t := 0; t < nt; t++ {
 		tk := engine.Task{}
-		ns := 1 + r.Intn(5)
+		ns := 1 + b.n(5)
 		for s := 0; s < ns; s++ {
 			client := r.Intn(len(sc.Clients))
 			T := sc.Clients[client].Timeout
@@ -1067,7 +1127,7 @@ func genC08(b *builder) {
 	r := b.r
 	sc := b.sc
 	b.base(baseOpt{minCtl: 1, maxCtl: 4, maxClients: 3, fixedBind: pick(r, 0, 0, 2)})
-	nt := 2 + r.Intn(5)
+	nt := 2 + b.n(5)
 	if r.Intn(3) == 0 {
 		nt = 2
 	}
@@ -1077,7 +1137,7 @@ func genC08(b *builder) {
 		if r.Intn(3) == 0 {
 			tk.Start = time.Duration(r.Intn(4)) * time.Millisecond
 		}
-		ns := 1 + r.Intn(4)
+		ns := 1 + b.n(4)
 		for s := 0; s < ns; s++ {
 			client := r.Intn(len(sc.Clients))
 			T := sc.Clients[client].Timeout
@@ -1108,6 +1168,33 @@ func genC08(b *builder) {
 			}
 			a := model.GenArgs(r, op, serial)
 			st := b.callStep(client, op, a, known, b.early(T), model.ReplyOpts{Junk: true})
+			rt := b.route(client, op, serial)
+			if rt.Path == "broadcast" && r.Intn(3) == 0 {
+				// everybody on the network hears a broadcast: other controllers answer too, and noise is noise
+				for i := 1 + r.Intn(3); i > 0; i-- {
+					cl := pick(r, "wrongserial", "wrongserial", "wronglen", "garbage")
+					d := b.datagram(cl, op, &a, serial)
+					if cl == "garbage" && len(d) >= 8 {
+						d[4] ^= 0xff // never S's serial
+					}
+					e := b.emit(rt, nil, b.early(T), d, cl)
+					e.From = fmt.Sprintf("%s.%d:60000", b.prefix, 110+r.Intn(80))
+					st.Plan.Emits = append(st.Plan.Emits, e)
+				}
+			}
+			if r.Intn(10) == 0 && len(st.Plan.Emits) > 0 {
+				// this controller is slow or silent: the call may fail, the ones queued behind it must not
+				if r.Intn(2) == 0 {
+					st.Plan.Emits = nil
+				} else {
+					for i := range st.Plan.Emits {
+						if st.Plan.Emits[i].Class == "valid" {
+							st.Plan.Emits[i].After = T + time.Duration(r.Int63n(int64(T)))
+							st.Plan.Emits[i].Class = "late"
+						}
+					}
+				}
+			}
 			if st.Plan.TCP == "accept" {
 				// connecting takes part of the timeout as well
 				st.Plan.ConnDelay = b.early(T) / 3
@@ -1221,7 +1308,7 @@ func genC13(b *builder) {
 	dated := []model.Op{model.PutCard, model.SetTimeProfile, model.AddTask, model.GetCardByIndex, model.GetCardByID, model.GetTimeProfile,
 		model.GetDevice, model.GetTime, model.SetTime, model.GetEvent, model.GetStatus}
 	tk := engine.Task{}
-	ns := 1 + r.Intn(5)
+	ns := 1 + b.n(5)
 	for s := 0; s < ns; s++ {
 		T := sc.Clients[0].Timeout
 		if r.Intn(8) == 0 && sc.Clients[0].Listen != "" {
